@@ -63,7 +63,7 @@ func writeManifest() {
 		"setup_cmd": "./check setup",
 		"hooks": map[string]any{
 			"guard":            "verif-overlay",
-			"enable":           "No hook is committed to /repo. Checks build /repo's current working tree with `go test -c -tags verif -overlay /verif/build/overlay.json -modfile /verif/build/go.mod`; the overlay (regenerated on every check by verifctl from the current tree) adds the packages sdk/helper/simsync and internal/verifsim plus accessor files, and compiles every non-test file of internal/** and sdk/** that imports \"sync\" from a copy whose import spec points at simsync (drop-in Mutex/RWMutex that park durably and are granted by the seeded scheduler). zgo.at/zcache/v2 is built from a copy without its finalizer via a modfile replace.",
+			"enable":           "No hook is committed to /repo. Checks build /repo's current working tree with `go test -c -tags verif -overlay /verif/build/overlay.json -modfile /verif/build/go.mod`; the overlay (regenerated on every check by verifctl from the current tree) adds the packages sdk/helper/simsync and internal/verifsim plus accessor files, and compiles every non-test file of internal/** and sdk/** that imports \"sync\" from a copy whose import spec points at simsync (drop-in Mutex/RWMutex that park durably and are granted by the seeded scheduler). In the same way internal/helper/fairshare/jobmanager.go is compiled from a copy whose 50 ms poll literal is a 5 s variable (simulated-clock cost, DESIGN.md 10.2). zgo.at/zcache/v2 is built from a copy without its finalizer via a modfile replace. Nothing of this is committed to /repo; the only commits there are unguarded 'fix:' repairs of genuine defects (known_findings.json).",
 			"baseline_off_cmd": "cd /repo && go build ./... && go test -vet=off -count=1 -timeout 25m ./...",
 			"source_commits":   []string{},
 			"add_only":         true,
